@@ -277,8 +277,9 @@ def _real_function(key):
     return obj if callable(obj) else None
 
 
-def _call(fn, args, seconds=10):
-    """(kind, value): ("returned", result) | ("raised", exception) | ("timeout", None)"""
+def _call(fn, args, seconds=10, warned=None):
+    """(kind, value): ("returned", result) | ("raised", exception) | ("timeout", None); `warned` (a list) receives the messages of
+    the warnings the call emits (numpy reports a float division by zero as a RuntimeWarning, not as an exception)"""
     sig = inspect.signature(fn)
     pos, kw = [], {}
     for name, p in sig.parameters.items():
@@ -300,11 +301,15 @@ def _call(fn, args, seconds=10):
     try:
         import warnings
 
-        with warnings.catch_warnings():
-            warnings.simplefilter("ignore")
-            r = fn(*pos, **kw)
-            if inspect.isgenerator(r):
-                r = list(r)
+        with warnings.catch_warnings(record=warned is not None) as seen:
+            warnings.simplefilter("ignore" if warned is None else "always")
+            try:
+                r = fn(*pos, **kw)
+                if inspect.isgenerator(r):
+                    r = list(r)
+            finally:
+                if warned is not None:
+                    warned.extend(f"{w.category.__name__}: {w.message}" for w in seen)
         return "returned", r
     except _Timeout:
         return "timeout", None
@@ -412,7 +417,8 @@ def try_replay(ob, timeout_ms=10000):
         before = None
     packed = _pack(args)
     shown = {k: _short(v) for k, v in args.items()}
-    kind, val = _call(fn, args)
+    warned = []
+    kind, val = _call(fn, args, warned=warned)
     rec = dict(key=key, variant=ctx.get("variant"), input=shown, input_pickle=packed,
                observed=(f"raised {type(val).__name__}: {val}" if kind == "raised" else "no result within 10 s" if kind == "timeout" else _short(val)))
     label = ob.name.split("/", 2)[-1]
@@ -428,6 +434,13 @@ def try_replay(ob, timeout_ms=10000):
         if changed:
             rec["observed"] = "arguments after the call: " + _short({k: v for k, v in args.items() if before is not None and not agree(before[k], v)})
         rec["expect"] = dict(mutates=True)
+        return rec
+    if ob.kind == "safety" and label.split("/")[-1].startswith("div-nonzero"):
+        # a zero divisor: Python raises ZeroDivisionError, numpy emits `RuntimeWarning: divide by zero / invalid value encountered in divide`
+        rec.update(status="reproduced" if _divided_by_zero(kind, val, warned) else "differs", expected="no division by zero", predicted="a divisor is zero")
+        if warned:
+            rec["observed"] += "   [" + "; ".join(sorted(set(warned)))[:300] + "]"
+        rec["expect"] = dict(div_by_zero=True)
         return rec
     if ob.kind == "postcondition" and "result" in ctx and "/post/" in ob.name:
         if kind != "returned":
@@ -454,6 +467,12 @@ def try_replay(ob, timeout_ms=10000):
     return rec
 
 
+def _divided_by_zero(kind, val, warned):
+    if kind == "raised":
+        return isinstance(val, (ZeroDivisionError, FloatingPointError))
+    return any("RuntimeWarning" in w and "divide" in w for w in warned)
+
+
 def rerun(fi):
     """--replay of a recorded counter-model: True when the real code NO LONGER shows the recorded behaviour"""
     rp = fi.get("replay") or {}
@@ -466,9 +485,12 @@ def rerun(fi):
         before = copy.deepcopy(args)
     except Exception:
         before = None
-    kind, val = _call(fn, args)
+    warned = []
+    kind, val = _call(fn, args, warned=warned)
     print("real code:", f"raised {type(val).__name__}: {val}" if kind == "raised" else _short(val))
     ex = rp.get("expect") or {}
+    if ex.get("div_by_zero"):
+        return not _divided_by_zero(kind, val, warned)
     if "raised" in ex:
         return not (kind == "raised" and ex["raised"] in [c.__name__ for c in type(val).__mro__])
     if ex.get("mutates"):
